@@ -17,7 +17,10 @@ TECHNIQUE = "exhaustive accept/reject table + boundary-value differential testin
 RULE = ("pairs (actual, expected) in {nat,int,float}^2; contexts: x: E = a / g(a) with g(x: E) / "
         "return a from -> E / b + a with b: E returned as E; 40 values per accepted pair per case from "
         "a boundary set plus random; plus all six comparison operators between operands of two "
-        "different numeric types at equal and neighbouring values. distinct = (pair, context, value class)")
+        "different numeric types at equal and neighbouring values. The value at the coercion site is produced by "
+        "12 kinds of source expression (variable, abs/pos/round/neg/or results, struct field, tuple / array "
+        "element, conditional, walrus, user call) and the operand context uses 6-10 operator forms with the "
+        "narrower operand on either side. distinct = (pair, context, value class / kind / operand form)")
 FLOORS = {"pairs_probed": 36, "values_checked": 100, "comparisons_checked": 100}
 ORDER = {"nat": 0, "int": 1, "float": 2}
 TYS = ["nat", "int", "float"]
@@ -26,7 +29,7 @@ I63, U64 = 2**63, 2**64
 VALS = {"nat": [0, 1, 2, 7, 2**31, 2**32 + 1, 2**53, 2**53 + 1, 2**63 - 1, 2**63, 2**64 - 1, 2**64 - 1025],
         "int": [0, 1, -1, 7, -7, 2**31, -(2**31), 2**53 + 1, -(2**53) - 1, 2**62 + 1, 2**63 - 1, -(2**63),
                 9007199254740993, -9007199254740993]}
-HDR = ("from guppylang import guppy\nfrom guppylang.std.builtins import result, nat\n"
+HDR = ("from guppylang import guppy\nfrom guppylang.std.builtins import result, nat, array\n"
        "from guppylang.std.platform import _result_nat\n\n")
 
 
@@ -35,18 +38,50 @@ def plan(tier, seed):
     return {"n_cases": n, "exhaustive": False, "floors": {"evaluations": n // 2}}
 
 
-def fn_src(name, ctx_kind, act, exp):
+# Source expression kinds: how the value of type `act` is produced at the place where `exp` is expected.
+# Every kind is type-preserving (std/num.py: abs/pos/round/neg/or return the operand's type), so the
+# accept/reject table does not depend on the kind.  kind -> (template over `a`, types it exists for,
+# Python value function)
+KINDS = {
+    "var": ("a", TYS, lambda v: v),
+    "abs": ("abs(a)", TYS, abs),
+    "pos": ("(+a)", TYS, lambda v: v),
+    "round": ("round(a)", ["nat", "int"], lambda v: v),
+    "bitor": ("(a | a)", ["nat", "int"], lambda v: v),
+    "neg": ("(-a)", ["int", "float"], lambda v: -v),
+    "field": ("W_{act}(a).v", TYS, lambda v: v),
+    "tup": ("(a, True)[0]", TYS, lambda v: v),
+    "ifexp": ("(a if a == a else a)", TYS, lambda v: v),
+    "arr": ("array(a, a)[1]", TYS, lambda v: v),
+    "walrus": ("(y := a)", TYS, lambda v: v),
+    "call": ("idf_{act}(a)", TYS, lambda v: v),
+}
+# operand context: `b` has the expected type and is the operator's identity element
+OPFORMS = {
+    "float": [("b + {e}", "0.0"), ("{e} + b", "0.0"), ("{e} - b", "0.0"), ("{e} * b", "1.0"), ("b * {e}", "1.0"),
+              ("{e} / b", "1.0")],
+    "int": [("b + {e}", "0"), ("{e} + b", "0"), ("{e} - b", "0"), ("{e} * b", "1"), ("{e} | b", "0"), ("b | {e}", "0"),
+            ("{e} ^ b", "0"), ("{e} >> b", "0"), ("{e} << b", "0"), ("{e} // b", "1")],
+    "nat": [("b + {e}", "0"), ("{e} + b", "0"), ("{e} | b", "0"), ("b | {e}", "0"), ("{e} ^ b", "0"), ("{e} >> b", "0"),
+            ("{e} << b", "0")],
+}
+HDR += "".join(f"@guppy.struct\nclass W_{t}:\n    v: {t}\n\n@guppy\ndef idf_{t}(a: {t}) -> {t}:\n    return a\n\n"
+               for t in TYS)
+
+
+def fn_src(name, ctx_kind, act, exp, kind="var", opform=0):
+    e = KINDS[kind][0].replace("{act}", act)
     if ctx_kind == "annassign":
-        return f"@guppy\ndef {name}(a: {act}) -> {exp}:\n    x: {exp} = a\n    return x\n\n"
+        return f"@guppy\ndef {name}(a: {act}) -> {exp}:\n    x: {exp} = {e}\n    return x\n\n"
     if ctx_kind == "argument":
         return (f"@guppy\ndef {name}_g(x: {exp}) -> {exp}:\n    return x\n\n"
-                f"@guppy\ndef {name}(a: {act}) -> {exp}:\n    return {name}_g(a)\n\n")
+                f"@guppy\ndef {name}(a: {act}) -> {exp}:\n    return {name}_g({e})\n\n")
     if ctx_kind == "return":
-        return f"@guppy\ndef {name}(a: {act}) -> {exp}:\n    return a\n\n"
+        return f"@guppy\ndef {name}(a: {act}) -> {exp}:\n    return {e}\n\n"
     if ctx_kind == "operand":
-        zero = "0.0" if exp == "float" else "0"
-        return (f"@guppy\ndef {name}_h(a: {act}, b: {exp}) -> {exp}:\n    return b + a\n\n"
-                f"@guppy\ndef {name}(a: {act}) -> {exp}:\n    return {name}_h(a, {zero})\n\n")
+        tmpl, ident = OPFORMS[exp][opform % len(OPFORMS[exp])]
+        return (f"@guppy\ndef {name}_h(a: {act}, b: {exp}) -> {exp}:\n    return {tmpl.format(e=e)}\n\n"
+                f"@guppy\ndef {name}(a: {act}) -> {exp}:\n    return {name}_h(a, {ident})\n\n")
     raise AssertionError
 
 
@@ -58,17 +93,22 @@ def run_case(ctx, rng, idx, params, tier):
     for ck in CTXS:
         for act in TYS:
             for exp in TYS:
-                name = f"f_{ck}_{act}_{exp}"
-                text.append(fn_src(name, ck, act, exp))
-                probes.append((name, ck, act, exp))
+                avail = [k for k, (_, tys, _) in KINDS.items() if act in tys and k != "var"]
+                for kind in ["var"] + rng.sample(avail, 3):
+                    opf = 0 if kind == "var" and rng.random() < 0.5 else rng.randrange(12)
+                    name = f"f_{ck}_{act}_{exp}_{kind}"
+                    text.append(fn_src(name, ck, act, exp, kind, opf))
+                    probes.append((name, ck, act, exp, kind, opf))
     ld = ctx.load("".join(text), "coerce")
     viols = []
     counters = {"pairs_probed": 0, "values_checked": 0}
     cells = set()
     accepted = []
-    for name, ck, act, exp in probes:
+    for name, ck, act, exp, kind, opf in probes:
         counters["pairs_probed"] += 1
+        counters["source_kinds_probed"] = counters.get("source_kinds_probed", 0) + (kind != "var")
         want = ORDER[act] <= ORDER[exp]
+        opd = OPFORMS[exp][opf % len(OPFORMS[exp])][0].format(e="E") if ck == "operand" else ""
         try:
             getattr(ld.module, name).check()
             got = True
@@ -77,28 +117,42 @@ def run_case(ctx, rng, idx, params, tier):
                 raise
             if not C.is_guppy_error(e):
                 viols.append({"mech": f"C16:crash:{C.innermost_repo_frame(e)}",
-                              "witness": {"context": ck, "actual": act, "expected": exp}})
+                              "witness": {"context": ck, "actual": act, "expected": exp, "kind": kind,
+                                          "source": fn_src(name, ck, act, exp, kind, opf)}})
                 continue
             got = False
         cells.add(f"{ck}:{act}->{exp}:{'acc' if got else 'rej'}")
+        cells.add(f"kind:{kind}:{ck}:{'widen' if ORDER[act] < ORDER[exp] else 'same' if act == exp else 'narrow'}")
+        if opd:
+            cells.add(f"operand-form:{opd}:{act}->{exp}")
         if got != want:
-            viols.append({"mech": f"C16:{'narrowing-accepted' if got else 'widening-rejected'}:{ck}:{act}->{exp}",
-                          "witness": {"context": ck, "actual": act, "expected": exp,
-                                      "source": fn_src(name, ck, act, exp)}})
+            what = "narrowing-accepted" if got else "widening-rejected"
+            if kind == "call" and not got and act != exp and ck != "operand":
+                mech = "C16:widening-rejected:result-of-user-function-call"
+            else:
+                mech = f"C16:{what}:{ck}:{act}->{exp}" + ("" if kind == "var" else f":{kind}") \
+                    + (f":{opd}" if opd and opf else "")
+            viols.append({"mech": mech,
+                          "witness": {"context": ck, "actual": act, "expected": exp, "kind": kind,
+                                      "source": fn_src(name, ck, act, exp, kind, opf)}})
         elif got and act != "float":
-            accepted.append((name, ck, act, exp))
+            accepted.append((name, ck, act, exp, kind))
     # value preservation
     calls = []
     plan_ = []
-    for name, ck, act, exp in accepted:
-        vs = [rng.choice(VALS[act]) for _ in range(6)] + \
-             [rng.randint(0, U64 - 1) if act == "nat" else rng.randint(-I63, I63 - 1) for _ in range(4)]
+    for name, ck, act, exp, kind in accepted:
+        nv = (6, 4) if kind == "var" else (2, 1)
+        vs = [rng.choice(VALS[act]) for _ in range(nv[0])] + \
+             [rng.randint(0, U64 - 1) if act == "nat" else rng.randint(-I63, I63 - 1) for _ in range(nv[1])]
         for v in vs:
-            if exp == "int" and not -I63 <= v < I63:
+            if kind in ("abs", "neg") and v == -I63:
+                continue  # the source expression itself overflows
+            pv = KINDS[kind][2](v)
+            if exp == "int" and not -I63 <= pv < I63:
                 continue  # not representable in the target: not value-checked
             rf = "_result_nat" if exp == "nat" else "result"  # `result` reports nats via its int variant
             calls.append(f'    {rf}("r", {name}({v}))')
-            plan_.append((name, ck, act, exp, v))
+            plan_.append((name, ck, act, exp, pv))
     # comparison operands: the narrower operand (either side) is widened to the other's type; the
     # outcome must be Python's for equal and neighbouring values (nat vs negative int excluded:
     # a nat >= 2^63 compared with an int is the known C04 finding and is not generated)
@@ -175,7 +229,7 @@ def replay(ctx, w):
 
     if "source" not in w:
         return {"status": "held", "note": "value witness: re-run the check"}
-    name = w["source"].split("def ")[-1].split("(")[0]
+    name = w["source"].split("@guppy\ndef ")[-1].split("(")[0]
     ld = ctx.load(HDR + w["source"])
     try:
         getattr(ld.module, name).check()
